@@ -487,6 +487,10 @@ func init() {
 				add("onebyte", 8, 1, "plain", nb)
 				add("continuous", 1, 1, "plain", nb)
 			}
+			if !d.Quick() {
+				specs = d.Replicate(specs, 3)
+				specs = d.WithRuntimeVariants(specs, 4, nil)
+			}
 			outs := d.RunWorkers(specs, 16)
 			d.raceVerdict(outs)
 		},
